@@ -296,7 +296,8 @@ func runGwHistory(rng *rand.Rand, w *Writer, suite string, malformed bool) {
 					tok := uint16(rng.Intn(65536))
 					en := rxEntry{tmst: rng.Uint32(), ch: uint8(rng.Intn(8)), datr: datrs[rng.Intn(len(datrs))], rssi: -50, lsnr: "7.25", data: randBytes(rng, 1+rng.Intn(20))}
 					pkt := append(header(2, tok, 0, e), []byte(`{"rxpk":[`+entryJSON(en)+`]}`)...)
-					gw.socks[si].WriteToUDP(pkt, gw.addrFor(si))
+					w.Begin(suite + " datagram " + hx(pkt))
+			gw.socks[si].WriteToUDP(pkt, gw.addrFor(si))
 					step(fmt.Sprintf("G,%d,%s,valid,%d/%d/%d/%s/%d/%s/%s", si, hx(pkt), en.tmst, en.ch, en.rfch, en.datr, en.rssi, en.lsnr, hx(en.data)), false)
 					w.Count("gw.push_data.probe")
 				}
@@ -309,6 +310,7 @@ func runGwHistory(rng *rand.Rand, w *Writer, suite string, malformed bool) {
 			if rng.Intn(6) == 0 {
 				pkt = append(pkt, randBytes(rng, rng.Intn(5))...) // trailing bytes are ignored
 			}
+			w.Begin(suite + " datagram " + hx(pkt))
 			gw.socks[si].WriteToUDP(pkt, gw.addrFor(si))
 			step(fmt.Sprintf("G,%d,%s,-", si, hx(pkt)), false)
 			w.Count("gw.pull_data")
@@ -320,7 +322,7 @@ func runGwHistory(rng *rand.Rand, w *Writer, suite string, malformed bool) {
 			var ents []string
 			var js []string
 			for k := 0; k < ne; k++ {
-				en := rxEntry{tmst: []uint32{0, 1, 4293967295, 4293967296, 4289967296, 4294967295, rng.Uint32()}[rng.Intn(7)], ch: uint8(rng.Intn(256)), rfch: uint8(rng.Intn(2)),
+				en := rxEntry{tmst: []uint32{0, 1, 4293967295, 4293967296, 4289967296, 4294967295, rng.Uint32()}[rng.Intn(7)], ch: uint8([]int{8, 9, 255, 7, 128, rng.Intn(256)}[rng.Intn(6)]), rfch: uint8(rng.Intn(2)),
 					datr: datrs[rng.Intn(len(datrs))], rssi: int32(rng.Intn(300) - 200), lsnr: []string{"0", "-20", "9.5", "7.25", "-11.5"}[rng.Intn(5)],
 					data: randBytes(rng, rng.Intn(40)), badB64: rng.Intn(12) == 0, extraField: rng.Intn(8) == 0}
 				if rng.Intn(3) != 0 {
@@ -362,6 +364,7 @@ func runGwHistory(rng *rand.Rand, w *Writer, suite string, malformed bool) {
 				opaque = true
 			}
 			pkt := append(header(ver, tok, 0, e), []byte(body)...)
+			w.Begin(suite + " datagram " + hx(pkt))
 			gw.socks[si].WriteToUDP(pkt, gw.addrFor(si))
 			step(fmt.Sprintf("G,%d,%s,%s,%s", si, hx(pkt), cls, strings.Join(ents, ";")), opaque)
 			w.Count("gw.push_data." + cls)
@@ -382,6 +385,7 @@ func runGwHistory(rng *rand.Rand, w *Writer, suite string, malformed bool) {
 			default:
 				pkt = randBytes(rng, 200+rng.Intn(2000))
 			}
+			w.Begin(suite + " datagram " + hx(pkt))
 			gw.socks[si].WriteToUDP(pkt, gw.addrFor(si))
 			step(fmt.Sprintf("G,%d,%s,-", si, hx(pkt)), false)
 			w.Count("gw.other")
